@@ -5,7 +5,19 @@ package flip
 // Re-export for the verification harness (check C12). Injected by the build
 // overlay; no logic of its own.
 
-import "github.com/idena-network/idena-go/blockchain/types"
+import (
+	"context"
+
+	"github.com/idena-network/idena-go/blockchain/types"
+	"github.com/idena-network/idena-go/common"
+	"github.com/idena-network/idena-go/common/eventbus"
+	"github.com/idena-network/idena-go/core/appstate"
+	"github.com/idena-network/idena-go/core/mempool"
+	"github.com/idena-network/idena-go/ipfs"
+	"github.com/idena-network/idena-go/log"
+	"github.com/idena-network/idena-go/secstore"
+	dbm "github.com/tendermint/tm-db"
+)
 
 // VerifC12DrainOne takes one flip received from the network out of the queue
 // AddNewFlip(flip, false) put it in and processes it exactly as writeLoop does,
@@ -21,3 +33,25 @@ func (fp *Flipper) VerifC12DrainOne() (bool, error) {
 
 // VerifC12AddNewFlip is addNewFlip for a flip received from the network.
 func (fp *Flipper) VerifC12AddNewFlip(f *types.Flip) error { return fp.addNewFlip(f, false) }
+
+// VerifC12NewFlipper is NewFlipper without the writeLoop goroutine, so that a
+// flip queued by AddNewFlip(flip, false) stays in the queue until
+// VerifC12DrainOne processes it on the calling goroutine.
+func VerifC12NewFlipper(db dbm.DB, ipfsProxy ipfs.Proxy, keyspool *mempool.KeysPool, txpool *mempool.TxPool, secStore *secstore.SecStore, appState *appstate.AppState, bus eventbus.Bus) *Flipper {
+	ctx, cancel := context.WithCancel(context.Background())
+	return &Flipper{
+		db:               db,
+		log:              log.New(),
+		ipfsProxy:        ipfsProxy,
+		keyspool:         keyspool,
+		txpool:           txpool,
+		secStore:         secStore,
+		flips:            make(map[common.Hash]*IpfsFlip),
+		flipReadiness:    make(map[common.Hash]bool),
+		appState:         appState,
+		loadingCtx:       ctx,
+		cancelLoadingCtx: cancel,
+		bus:              bus,
+		flipsQueue:       make(chan *types.Flip, 1000),
+	}
+}
